@@ -202,6 +202,10 @@ pub fn gen_c09(ctx: &Ctx, rng: &mut Rng, out: &mut Vec<String>) {
         let unnamed = if g.rng.chance(1, 2) { Some(g.rng.below(npops as u64) as usize) } else { None };
         let nrec = g.rng.range(1, 12) as usize;
         let recs: Vec<(String, usize, Vec<String>)> = (0..nrec).map(|r| ("7".to_string(), 100 + r, record(&mut g, &assign, [80, 12, 8, 0], false, false))).collect();
+        // every fifth call set: the unlisted columns carry genotypes of other ploidy (haploid males on chrX, triploid calls) — an
+        // unlisted sample must never decide anything
+        let mut recs = recs;
+        if i % 5 == 2 { for r in recs.iter_mut() { for (c, a) in assign.iter().enumerate() { if a.is_none() { r.2[c] = ["1", "0", "0/0/1", "./././.", "1|1|0"][(c + r.1) % 5].to_string(); } } } }
         let base_order: Vec<usize> = (0..ncols).collect();
         // a third of the call sets use sample names and labels with blanks / punctuation (never `,` `=` tab or newline, which
         // delimit the list syntax): distinct labels sharing their first word, a label that is a prefix of another, an empty label
@@ -254,10 +258,11 @@ fn kind_record(kind: usize, mem: bool) -> Vec<String> {
         4 => ["2", "2", "m", "0"],          // insufficient in population 1
         6 => ["m", "x", "m", "0"],          // every selected sample uncalled (nothing is counted at all)
         7 => ["x", "m", "x", "m"],          // every sample uncalled
+        8 => ["@", "@", "@", "@"],          // the record has no GT key at all (FORMAT DP only): every sample missing (CLI / VCF only)
         _ => ["0", "1", "2", "m"],          // complete, different counts
     };
-    if mem { v.iter().map(|s| s.to_string()).collect() } else {
-        v.iter().map(|s| match *s { "0" => "0/0", "1" => "0|1", "2" => "1/1", "m" => "./.", _ => "1/2" }.to_string()).collect()
+    if mem { v.iter().map(|s| if *s == "@" { "m".to_string() } else { s.to_string() }).collect() } else {
+        v.iter().map(|s| match *s { "0" => "0/0", "1" => "0|1", "2" => "1/1", "m" => "./.", "@" => "@", _ => "1/2" }.to_string()).collect()
     }
 }
 
@@ -293,6 +298,9 @@ pub fn gen_c11(ctx: &Ctx, rng: &mut Rng, out: &mut Vec<String>) {
         if i % 4 == 0 {
             let mut k = kinds.clone(); rng.shuffle(&mut k);
             out.push(format!("c11.cli\tvcf\tstdin\t4\t0\t0\t{cols4}\t{sl}\t{proj}\t0\t{}\t{}", if proj == "N" { "-" } else { "6" }, mk(&kinds, false)));
+            // the same stream with records that have no GT key spliced in after the first, in the middle and at the end (VCF text, plain and BGZF)
+            let mut with_nogt = kinds.clone(); with_nogt.insert(1, 8); with_nogt.insert(with_nogt.len() / 2 + 1, 8); with_nogt.push(8);
+            out.push(format!("c11.cli\t{}\tstdin\t4\t2\t{}\t{cols4}\t{sl}\t{proj}\t0\t{}\t{}", if i % 8 == 0 { "vcf" } else { "vcfgz" }, (i / 4) % 2, if proj == "N" { "-" } else { "6" }, mk(&with_nogt, false)));
             out.push(format!("c11.cli\tbcf\tpath\t2\t2\t0\t{cols4}\t{sl}\t{proj}\t0\t{}\t{}", if proj == "N" { "-" } else { "6" }, mk(&k, false)));
         }
     }
@@ -326,6 +334,15 @@ fn gen_c11_cohorts(ctx: &Ctx, rng: &mut Rng, out: &mut Vec<String>) {
 }
 
 pub fn gen_c10(ctx: &Ctx, rng: &mut Rng, out: &mut Vec<String>) {
+    // large cohorts under projection through the binary: every counted record must still weigh exactly one
+    for n in [540usize, 600] {
+        if !ctx.tier_thorough && n != 600 { continue; }
+        let het = vec!["0/1".to_string(); n].join(",");
+        let mut r3: Vec<String> = vec!["1/1".to_string(); n]; r3[0] = "./.".into();
+        let mut r4: Vec<String> = (0..n).map(|j| if j % 2 == 0 { "0/0" } else { "1|1" }.to_string()).collect(); r4[1] = "0|1".into();
+        let r5: Vec<String> = (0..n).map(|j| if j < 3 * n / 4 { "./." } else { "0/1" }.to_string()).collect();
+        out.push(format!("c10.cli\tvcf\tstdin\t4\t0\t0\t{}\tN\tshape:{}\t0\t12\t1~100~{het};1~200~{};1~300~{};1~500~{}", cols(n).join(","), n + 1, r3.join(","), r4.join(","), r5.join(",")));
+    }
     let mut g = Gen { rng };
     let nstreams = if ctx.tier_thorough { 400 } else { 40 };
     for i in 0..nstreams {
@@ -447,6 +464,14 @@ pub fn gen_c02(ctx: &Ctx, rng: &mut Rng, out: &mut Vec<String>) {
     for n in 1..=(if ctx.tier_thorough { 300usize } else { 140 }) {
         let rec = |kind: usize| -> String { (0..n).map(|j| match kind { 0 => "2", 1 => if j == 0 && n > 1 { "m" } else { "2" }, _ => if j % 2 == 0 { "2" } else { "0" } }).collect::<Vec<_>>().join(",") };
         out.push(format!("c02.mem\t{}\tN\tshape:3\t1~1~{};1~2~{};1~3~{}", cols(n).join(","), rec(0), rec(1), rec(2)));
+    }
+    // every sample heterozygous (ALT count = half of all chromosomes) projected to half the cohort: the lower end of the support has
+    // a probability below the smallest binary64 number once the cohort passes ~520 samples
+    for n in [100usize, 400, 500, 520, 540, 560, 600, 700] {
+        if !ctx.tier_thorough && ![100, 520, 540, 600].contains(&n) { continue; }
+        let het = vec!["1".to_string(); n].join(",");
+        let mut mixed: Vec<String> = vec!["1".to_string(); n]; mixed[0] = "m".into(); mixed[1] = "2".into();
+        out.push(format!("c02.mem\t{}\tN\tshape:{}\t1~1~{het};1~2~{}", cols(n).join(","), n + 1, mixed.join(",")));
     }
     // cohorts of hundreds of samples, one record each (this is where binomials leave the f64 range)
     let cohort_sizes: &[usize] = if ctx.tier_thorough { &[90, 300, 520, 600, 1500, 3000] } else { &[90, 300, 520, 600] };
